@@ -163,6 +163,8 @@ type Env struct {
 	log   []string
 	notes []string
 	viol  []Violation
+	// AfterWait runs at every quiescent point, before the phase is closed; it reports whether it woke anything up
+	AfterWait func() bool
 	// RuleRename: a scenario hosted by another property reports under that property's rule names
 	// (prefix old -> prefix new)
 	RuleRename [2]string
@@ -246,6 +248,13 @@ func (e *Env) flushNotes() {
 // Wait runs the system to quiescence and closes the current phase.
 func (e *Env) Wait() {
 	synctest.Wait()
+	if e.AfterWait != nil {
+		// a scenario-owned relay (e.g. records of a secure-transport shim re-injected into the simulated network);
+		// it may make goroutines runnable again, so quiescence is re-established afterwards
+		if e.AfterWait() {
+			synctest.Wait()
+		}
+	}
 	e.flushViolations()
 	e.flushNotes()
 	e.imu.Lock()
